@@ -2850,7 +2850,11 @@ loop:
 
 	// If there is a potential ambiguity, all results must be the same
 	for _, ambiguousResult := range ambiguousResults {
-		if ambiguousResult != result {
+		// The location of the export clause is only there for the error message.
+		// Two different clauses can still export the same binding.
+		a, b := ambiguousResult, result
+		a.nameLoc, b.nameLoc = logger.Loc{}, logger.Loc{}
+		if a != b {
 			if result.kind == matchImportNormal && ambiguousResult.kind == matchImportNormal &&
 				result.nameLoc.Start != 0 && ambiguousResult.nameLoc.Start != 0 {
 				return matchImportResult{
